@@ -290,6 +290,12 @@ theorem rawrecv_delivers_in_order_at_most_once (s : Proto.RawRecv.State) (hr : P
     ((Proto.RawRecv.line s).map Proto.RawRecv.glue).Sublist s.rin :=
   (Proto.RawRecv.reach_inv s hr).order
 
+/-- … restricted to one connection: what was delivered, queued or is held from pipe `p` is, in order, part of what that
+    peer sent — the peer's send order is kept on every connection, whatever the other connections do -/
+theorem rawrecv_per_connection_order (s : Proto.RawRecv.State) (hr : Proto.RawRecv.Reach s) (p : Nat) :
+    (((Proto.RawRecv.line s).map Proto.RawRecv.glue).filter (fun x => x.1 = p)).Sublist (s.rin.filter (fun x => x.1 = p)) :=
+  (Proto.RawRecv.reach_inv s hr).order.filter _
+
 /-- … and what Recv returns on XREQ / XSURVEYOR is split exactly at byte four: the header is the four-byte id the
     message arrived with (the socket's kind never changes along a history: `reachFrom_kind`) -/
 theorem rawrecv_header_is_the_first_four_bytes (s : Proto.RawRecv.State) (hr : Proto.RawRecv.ReachFrom Proto.RawRecv.init s) :
